@@ -41,6 +41,8 @@ enum V {
     T(Vec<V>),
     L(Vec<V>),
     R(i64, i64, bool),
+    /// order-logging object `mk_box(v)`: a map `{v}` whose metamap defines `@+`, `@*`, `@<`
+    B(Box<V>),
 }
 
 fn tuple_lit(xs: &[V]) -> String {
@@ -59,6 +61,7 @@ impl V {
             V::T(xs) => tuple_lit(xs),
             V::L(xs) => format!("[{}]", xs.iter().map(|x| x.koto()).collect::<Vec<_>>().join(", ")),
             V::R(a, b, incl) => format!("({}{}{})", a, if *incl { "..=" } else { ".." }, b),
+            V::B(v) => format!("mk_box({})", v.koto()),
         }
     }
     fn canon(&self) -> String {
@@ -68,6 +71,7 @@ impl V {
             V::T(xs) => format!("(t{})", xs.iter().map(|x| format!(" {}", x.canon())).collect::<String>()),
             V::L(xs) => format!("(l{})", xs.iter().map(|x| format!(" {}", x.canon())).collect::<String>()),
             V::R(a, b, incl) => format!("(r {} {} {})", a, b, *incl as u8),
+            V::B(v) => format!("(m (sx76 {}))", v.canon()),
         }
     }
 }
@@ -180,6 +184,9 @@ enum Cons {
     Copy(usize, bool),
     /// `.peekable()` on the pipeline, then operations n = next, b = next_back, p = peek, q = peek_back
     PeekOps(Vec<char>),
+    /// `sum(init)` / `product(init)` with an explicit initial value
+    SumInit(V),
+    ProductInit(V),
     /// `pre` calls (true = next), `c = koto.copy it`, then interleaved calls (on copy?, next?)
     CopyOps(Vec<bool>, Vec<(bool, bool)>),
     /// the same on `it = pipeline.peekable()` with the Peekable operations n/b/p/q
@@ -204,6 +211,8 @@ impl Cons {
                 format!("(calls{})", ds.iter().map(|d| if *d { " n" } else { " b" }).collect::<String>())
             }
             Cons::Advance(n) => format!("(advance {})", n),
+            Cons::SumInit(v) => format!("(suminit {})", v.canon()),
+            Cons::ProductInit(v) => format!("(productinit {})", v.canon()),
             Cons::Copy(k, f) => format!("(copy {} {})", k, *f as u8),
             Cons::PeekOps(ops) => format!("(peekops{})", ops.iter().map(|o| format!(" {}", o)).collect::<String>()),
             Cons::CopyOps(pre, post) => format!(
@@ -246,6 +255,9 @@ impl Cons {
             Cons::Simple("tostring") => one("it.to_string()".into()),
             Cons::Simple("minmax") => one("it.min_max()".into()),
             Cons::Simple("fold") => one("it.fold(0, fold_fn)".into()),
+            Cons::Simple("foldpair") => one("it.fold((), fold_pair)".into()),
+            Cons::SumInit(v) => one(format!("it.sum({})", v.koto())),
+            Cons::ProductInit(v) => one(format!("it.product({})", v.koto())),
             Cons::Simple("for") => vec![
                 "n = 0".into(),
                 "for x in it".into(),
@@ -552,6 +564,29 @@ export fold_fn = |acc, x|
   emit 3, 40, acc, x
   acc * 3 + key(x)
 
+export fold_pair = |acc, x|
+  emit 3, 47, acc, x
+  (acc, x)
+
+export unbox = |x|
+  if type(x) == 'Box' then x.v else x
+
+export mk_box = |v|
+  v: v
+  @type: 'Box'
+  @+: |other|
+    o = unbox other
+    emit 3, 44, self.v, o
+    mk_box((self.v, o))
+  @*: |other|
+    o = unbox other
+    emit 3, 45, self.v, o
+    mk_box([self.v, o])
+  @<: |other|
+    o = unbox other
+    emit 3, 46, self.v, o
+    key(self.v) < key(o)
+
 export sep_fn = ||
   emit 3, 41
   -1
@@ -801,6 +836,9 @@ fn elems(flavour: usize, n: usize, base: i64) -> Vec<V> {
         .map(|i| match flavour {
             0 => V::I(base + i as i64),
             1 => V::S(["a", "bb", "c", "dddd", "ee", "f"][i % 6].to_string()),
+            4 => V::L(vec![V::I(base + i as i64), V::I(i as i64)]),
+            5 => V::T(vec![V::I(base + i as i64)]),
+            6 => V::B(Box::new(V::I(base + (i as i64 * 7) % 3))), // boxes with repeated keys (ties)
             2 => match i % 5 {
                 0 => V::T(vec![V::I(base + i as i64), V::I(base + 50 + i as i64)]),
                 1 => V::L(vec![V::I(base + i as i64)]),
@@ -923,6 +961,15 @@ fn consumer_table() -> Vec<Cons> {
     .iter()
     .map(|s| Cons::Simple(s))
     .collect();
+    // operators with the exact operand order: explicit initial values, non-commutative element types
+    v.push(Cons::Simple("foldpair"));
+    let bx0 = V::B(Box::new(V::I(0)));
+    for init in [V::S(String::new()), V::S(">".into()), V::L(vec![]), V::L(vec![V::I(9)]), V::T(vec![]), V::T(vec![V::I(9)]), V::I(5), bx0.clone()] {
+        v.push(Cons::SumInit(init));
+    }
+    for init in [V::I(2), V::B(Box::new(V::I(1))), V::S("x".into())] {
+        v.push(Cons::ProductInit(init));
+    }
     for k in KEYFNS {
         v.push(Cons::By("minby", k));
         v.push(Cons::By("maxby", k));
@@ -990,7 +1037,7 @@ fn peek_copy_post(with_back: bool) -> Vec<(bool, char)> {
 fn random_pipe(rng: &mut Rng, depth: usize, max_len: usize, ads: &[Ad]) -> Pipe {
     let n = if rng.chance(1, 8) { max_len + 1 + rng.below(3) } else { rng.below(max_len + 1) };
     let kind = rng.below(SRC_KINDS);
-    let flavour = if matches!(kind, 5 | 6) { rng.below(RANGE_BASES.len()) } else { rng.weighted(&[6, 2, 2, 2]) };
+    let flavour = if matches!(kind, 5 | 6) { rng.below(RANGE_BASES.len()) } else { rng.weighted(&[6, 2, 2, 2, 1, 1, 2]) };
     let mut p = Pipe::Src(source(kind, n, flavour, 10));
     if let Pipe::Src(Src::Map(_)) = &p {
         match rng.below(4) {
@@ -1373,7 +1420,7 @@ fn main() {
             for flavour in 0..RANGE_BASES.len() {
                 // element flavours for sources that carry arbitrary elements, start values for ranges
                 let ok = flavour == 0
-                    || (flavour < 4 && matches!(kind, 0 | 1 | 2 | 3 | 4 | 8 | 9 | 14))
+                    || (flavour < 7 && matches!(kind, 0 | 1 | 2 | 3 | 4 | 8 | 9 | 14))
                     || matches!(kind, 5 | 6);
                 if !ok {
                     continue;
@@ -1414,11 +1461,18 @@ fn main() {
         Cons::Calls(dirs("bbnnnb")),
         Cons::PeekCopy("pq".chars().collect(), peek_copy_post(true)),
         Cons::PeekCopy("pn".chars().collect(), peek_copy_post(false)),
+        // an order-logging accumulator: records every element and the operand order of `+` / `*`
+        Cons::SumInit(V::B(Box::new(V::I(0)))),
+        Cons::ProductInit(V::B(Box::new(V::I(1)))),
+        Cons::Simple("foldpair"),
+        Cons::Simple("minmax"),
     ];
     for kind in 0..SRC_KINDS {
         for n in 0..=max_len {
-            for flavour in [0, 2, 5, 7] {
-                let ok = flavour == 0 || (flavour == 2 && matches!(kind, 0 | 2 | 3)) || matches!(kind, 5 | 6);
+            for flavour in [0, 1, 2, 5, 6, 7] {
+                let ok = flavour == 0
+                    || (matches!(flavour, 1 | 2 | 6) && matches!(kind, 0 | 2 | 3))
+                    || (matches!(flavour, 2 | 5 | 7) && matches!(kind, 5 | 6));
                 if !ok {
                     continue;
                 }
@@ -1554,7 +1608,7 @@ fn main() {
         json!({"adaptor_instances": ads.len(), "consumer_instances": conss.len(), "source_kinds": SRC_KINDS,
                "source_lengths": format!("0..={}", max_len),
                "depth0": "consumers x kinds x lengths x flavours",
-               "depth1": "adaptor instances x kinds x lengths x 16 consumers; copy sweep: adaptor instances x 14 sources x lengths x copy position k=0..2n+1 x {forward, with back calls}",
+               "depth1": "adaptor instances x kinds x lengths x 20 consumers; copy sweep: adaptor instances x 14 sources x lengths x copy position k=0..2n+1 x {forward, with back calls}",
                "depth2": format!("adaptor instances^2 x kinds {:?} x lengths {:?} x to_list", d2_kinds, d2_lens)}),
     );
 
